@@ -212,6 +212,9 @@ def dim_cases():
             out.append((f"dim:local:{sp}", 15, code, h + f"int\tft_test(int n)\n{{\n\tchar\tbuf[{sp}];\n\n\tbuf[0] = n;\n\treturn (n);\n}}\n"))
             out.append((f"dim:global:{sp}", 13, code, h + f"static char\tg_buf[{sp}];\n\nint\tmain(void)\n{{\n\treturn (0);\n}}\n"))
             out.append((f"dim:second:{sp}", 15, code, h + f"int\tft_test(int n)\n{{\n\tchar\tbuf[4][{sp}];\n\n\tbuf[0][0] = n;\n\treturn (n);\n}}\n"))
+    # a variable-length array: the variable size in the first, the second or the third dimension
+    for dims in ("[n]", "[3][n]", "[n][3]", "[2][4][n]", "[SIZE][n + 1]", "[n * 2]"):
+        out.append((f"vla:local:{dims}", 15, "VLA_FORBIDDEN", h + f"int\tft_test(int n)\n{{\n\tchar\tbuf{dims};\n\n\tbuf[0] = n;\n\treturn (n);\n}}\n"))
     return out
 
 
@@ -320,8 +323,8 @@ def run(tier, seed):
     st.bump("array_dimension_runs", len(dtasks))
     for (label, ln, code, text), prob in zip(dtasks, dres):
         if prob:
-            what = "operator spacing in an array dimension" if label.startswith("dim:") else "declaration with initialiser"
-            failures.append(Failure("C02", f"{'V34/35' if label.startswith('dim:') else 'V-decl-assign'}:{code}:{prob}:{label.rsplit(':', 1)[0]}", f"{what} ({label}): {prob}",
+            what = "operator spacing in an array dimension" if label.startswith("dim:") else "variable-length array" if label.startswith("vla:") else "declaration with initialiser"
+            failures.append(Failure("C02", f"{'V34/35' if label.startswith('dim:') else 'V-vla' if label.startswith('vla:') else 'V-decl-assign'}:{code}:{prob}:{label if label.startswith('vla:') else label.rsplit(':', 1)[0]}", f"{what} ({label}): {prob}",
                                     {"kind": "wrapped", "text": text, "code": code, "line": ln}))
     # V28 generalised: every parameter shape (scalar, pointer, array, const, function pointer) at every position of a
     # prototype loses its name
